@@ -91,7 +91,8 @@ func (r *realiser) defaultIface(t reflect.Type) reflect.Value {
 	case exprIface, nodeIface:
 		return reflect.ValueOf(&ast.Ident{Name: r.freshName()})
 	case stmtIface:
-		return reflect.ValueOf(&ast.EmptyStmt{Implicit: false})
+		// a neutral statement that survives printing and re-parsing
+		return reflect.ValueOf(&ast.AssignStmt{Lhs: []ast.Expr{&ast.Ident{Name: "_"}}, Tok: token.ASSIGN, Rhs: []ast.Expr{&ast.BasicLit{Kind: token.INT, Value: "0"}}})
 	case declIface:
 		return reflect.ValueOf(&ast.GenDecl{Tok: token.VAR, Specs: []ast.Spec{&ast.ValueSpec{Names: []*ast.Ident{{Name: r.freshName()}}, Type: &ast.Ident{Name: "int"}}}})
 	case specIface:
